@@ -424,6 +424,8 @@ func (c *checker) tie(stream string, in caseInput, p realPlan) (per map[string][
 		// tree): the tool must read it
 		res.Count("real:parse-error")
 		res.Disagree(stream+" (the tool's parser refuses a configuration the generator wrote: "+p.Err+")", in, p.Err, "accepted")
+		// also an oracle failure of its own, so that the input is kept as a replay
+		c.failAny("valid_input_refused", stream+": the tool refuses a valid configuration: "+p.Err, in)
 		return nil, nil, false
 	}
 	if !c.decodeCheck(stream, in, p) {
@@ -480,6 +482,13 @@ func (c *checker) tie(stream string, in caseInput, p realPlan) (per map[string][
 	return per, flags, agree
 }
 
+// failAny reports a failure that concerns every property served by this harness (the tool does
+// not even get to plan).
+func (c *checker) failAny(symptom, what string, in caseInput) {
+	c.res.Count("oracle:" + symptom)
+	c.res.Fail(map[string]any{"pred": symptom, "backend": "PAN-OS", "symptom": symptom, "model_predicts": false, "shape": "-", "error": ""}, what, in)
+}
+
 // decodeCheck compares what the tool's parser made of the device and of the (merged) target with
 // an independent reading of the same text.
 func (c *checker) decodeCheck(stream string, in caseInput, p realPlan) bool {
@@ -491,6 +500,7 @@ func (c *checker) decodeCheck(stream string, in caseInput, p realPlan) bool {
 	}
 	if d := compareDecoded(p.A, wa, true); d != "" {
 		res.Disagree(stream+" (decoding of the device: "+d+")", in, "", "")
+		c.failAny("input_misread", stream+": the tool reads the device configuration differently from its text: "+d, in)
 		return false
 	}
 	switch {
@@ -502,6 +512,7 @@ func (c *checker) decodeCheck(stream string, in caseInput, p realPlan) bool {
 		}
 		if d := compareDecoded(p.B, wb, true); d != "" {
 			res.Disagree(stream+" (decoding of the target: "+d+")", in, "", "")
+			c.failAny("input_misread", stream+": the tool reads the target configuration differently from its text: "+d, in)
 			return false
 		}
 	case in.expectText != "":
@@ -512,6 +523,7 @@ func (c *checker) decodeCheck(stream string, in caseInput, p realPlan) bool {
 		}
 		if d := compareDecoded(p.B, wb, false); d != "" {
 			res.Disagree(stream+" (decoding / merging of the target from main, ipv6 and raw file: "+d+")", in, "", "")
+			c.failAny("input_misread", stream+": the merged target differs from what the generator split into files: "+d, in)
 			return false
 		}
 		res.Count("decode-check:merged-target")
@@ -1010,7 +1022,33 @@ func run(ctx *Ctx, prop string) *Result {
 			devVsys, reached = c.runCase(in, deep)
 		}
 	}
+	c.floors()
 	return res
+}
+
+// floors: every way a case can end without a verdict has a named counter; here the counters are
+// held against the number of cases, so that an oracle that silently stops looking is itself a
+// finding.
+func (c *checker) floors() {
+	d := c.res.Distribution
+	cases, pairs := c.n, d["oracle:pairs"]
+	check := func(ok bool, what string) {
+		if !ok {
+			c.res.Disagree("coverage floor: "+what, map[string]any{"cases": cases, "distribution": d}, "", "")
+		}
+	}
+	skipped := d["oracle-skipped:not-wellformed"] + d["oracle-skipped:nested-address-groups"]
+	check(pairs*10 >= cases*8, fmt.Sprintf("only %d vsys pairs judged in %d cases", pairs, cases))
+	check(skipped*5 <= pairs, fmt.Sprintf("%d pairs skipped (not well-formed / nested groups) against %d judged", skipped, pairs))
+	check(d["case:no-plan"]*10 <= cases, fmt.Sprintf("%d of %d cases ended without a plan", d["case:no-plan"], cases))
+	check(d["decode-check:ok"]+d["decode-check-skipped:merged-target-of-a-replay"] >= pairs, "the decoding of fewer configurations than judged pairs was checked")
+	check(d["oracle-skipped:no-second-plan"]*50 <= d["oracle:converged"]+50, fmt.Sprintf("%d second plans missing", d["oracle-skipped:no-second-plan"]))
+	check(d["oracle:reached-state-wellformed"]*10 >= pairs*9, "well-formedness of the reached state judged for too few pairs")
+	if cuts := d["resume:cuts"]; cuts > 0 {
+		lost := d["resume-skipped:no-plan-after-cut"] + d["resume-skipped:no-plan-after-second-run"] + d["resume-skipped:nested-address-groups"]
+		check(lost*20 <= cuts, fmt.Sprintf("%d of %d cuts not judged", lost, cuts))
+	}
+	check(d["devexec:ok"]*10 >= cases*7, fmt.Sprintf("whole-device execution compared for only %d of %d cases", d["devexec:ok"], cases))
 }
 
 func queryUnescape(s string) (string, error) {
